@@ -11,7 +11,9 @@ ID = 'C19'
 MKINDS = ['non-trashinfo-file', 'non-trashinfo-dir', 'empty', 'truncated',
           'binary', 'not-utf8', 'no-path', 'no-date', 'invalid-date',
           'info-without-payload', 'payload-without-info', 'dir-named-trashinfo',
-          'only-header', 'nul-bytes', 'huge-line', 'path-empty']
+          'only-header', 'nul-bytes', 'huge-line', 'path-empty',
+          'dangling-link-info', 'link-to-dir-info', 'loop-link-info',
+          'link-to-good-info']
 CMDS = ['list', 'restore-list', 'restore-each', 'rm', 'empty-days', 'empty']
 
 
@@ -88,6 +90,15 @@ def malformed_nodes(rng, t, kind, j, index, same_as=None):
         return [{'p': ip, 't': 'f', 'hex': (b'[Trash Info]\nPath=a\x00b\nDeletionDate=2003-03-03T03:03:03\n').hex()}, pay]
     if kind == 'huge-line':
         return [{'p': ip, 't': 'f', 'c': '[Trash Info]\nPath=' + 'x' * 70000 + '\nDeletionDate=2003-03-03T03:03:03\n'}, pay]
+    if kind == 'dangling-link-info':
+        return [{'p': ip, 't': 'l', 'to': 'no-such-target-%d' % j}, pay]
+    if kind == 'link-to-dir-info':
+        return [{'p': ip, 't': 'l', 'to': '.'}, pay]
+    if kind == 'loop-link-info':
+        return [{'p': ip, 't': 'l', 'to': nm + '.trashinfo'}, pay]
+    if kind == 'link-to-good-info':
+        return [{'p': base + '/info/target-of-link-%d.txt' % j, 't': 'f', 'c': good},
+                {'p': ip, 't': 'l', 'to': 'target-of-link-%d.txt' % j}, pay]
     if kind == 'path-empty':
         return [{'p': ip, 't': 'f', 'c': '[Trash Info]\nPath=\nDeletionDate=2003-03-03T03:03:03\n'}, pay]
     raise ValueError(kind)
